@@ -50,7 +50,10 @@ def _formula_sets(tier):
         terms = terms + [(u, a) for u in F.ARITH1 for a in d1] + \
             [(b, a, c) for b in F.ARITH2 + F.ARITHF2 for a in d1 for c in leaves] + \
             [(b, c, a) for b in F.ARITH2 + F.ARITHF2 for a in d1 for c in leaves]
-    ar = [('pred', '>=', t, F.C0) for t in terms] + [('pred', c, ('neg', F.X), ('ln', F.Y)) for c in ('<=', '==', '!==', '<', '>')]
+    inner = [('*', F.X, F.CH), ('+', F.X, F.C1), ('-', F.C2, F.Y), F.C2]
+    terms = terms + [(u, a) for u in F.ARITH1 for a in inner] + [(b, a, F.C2) for b in F.ARITH2 + F.ARITHF2 for a in inner[:3]] + \
+        [(b, F.CH, a) for b in F.ARITH2 + F.ARITHF2 for a in inner[:3]]
+    ar = [('pred', '>=', t, F.C0) for t in dict.fromkeys(terms)] + [('pred', c, ('neg', F.X), ('ln', F.Y)) for c in ('<=', '==', '!==', '<', '>')]
     sets.append(('Arith', ar, (-1.0, 0.5, 2.0, 4.0), 2))
     sets.append(('Patterns', F.patterns(), F.V3 if not quick else F.V2, 3))
     # Deep: larger bounds (up to 7), three nested temporal operators, long traces over a two-letter alphabet
